@@ -260,3 +260,97 @@ pub fn run(t: &[&str]) -> String {
     let cap = cap + ps.ranges.len();
     format!("ok {} {}", plumbing, show_unit(&d, &u, cap))
 }
+
+// c17.lookup <L> <16 x (start len)> <has_sup> [<16 x (start len)>]
+// Dwarf::lookup_offset_id with every section a sub-slice of one buffer of L bytes.
+fn sid_index(id: SectionId) -> i32 {
+    match id {
+        SectionId::DebugAbbrev => 0,
+        SectionId::DebugAddr => 1,
+        SectionId::DebugAranges => 2,
+        SectionId::DebugInfo => 3,
+        SectionId::DebugLine => 4,
+        SectionId::DebugLineStr => 5,
+        SectionId::DebugMacinfo => 6,
+        SectionId::DebugMacro => 7,
+        SectionId::DebugNames => 8,
+        SectionId::DebugStr => 9,
+        SectionId::DebugStrOffsets => 10,
+        SectionId::DebugTypes => 11,
+        SectionId::DebugLoc => 12,
+        SectionId::DebugLocLists => 13,
+        SectionId::DebugRanges => 14,
+        SectionId::DebugRngLists => 15,
+        _ => -1,
+    }
+}
+
+pub fn run_lookup(t: &[&str]) -> String {
+    use gimli::{Reader, ReaderOffsetId, Section};
+    if t.len() < 35 {
+        return "bad-case".into();
+    }
+    let l = u(t[1]) as usize;
+    let places = |from: usize| -> Vec<(usize, usize)> { (0..16).map(|i| (u(t[from + 2 * i]) as usize, u(t[from + 2 * i + 1]) as usize)).collect() };
+    let main = places(2);
+    let has_sup = t[34] == "1";
+    if has_sup && t.len() < 67 {
+        return "bad-case".into();
+    }
+    let sup = if has_sup { Some(places(35)) } else { None };
+    let buf = vec![0u8; l];
+    let e = RunTimeEndian::Little;
+    let slice = |pl: &Vec<(usize, usize)>, id: SectionId| -> R {
+        let i = sid_index(id);
+        if i < 0 {
+            return EndianSlice::new(&buf[l..l], e);
+        }
+        let (s, n) = pl[i as usize];
+        EndianSlice::new(&buf[s..s + n], e)
+    };
+    let mut d: Dwarf<R> = Dwarf::load(|id| -> Result<R, ()> { Ok(slice(&main, id)) }).unwrap();
+    if let Some(sp) = &sup {
+        d.load_sup(|id| -> Result<R, ()> { Ok(slice(sp, id)) }).unwrap();
+    }
+    let base = buf.as_ptr() as u64;
+    let show = |id: u64| -> String {
+        match d.lookup_offset_id(ReaderOffsetId(id)) {
+            None => "-".to_string(),
+            Some((is_sup, s, off)) => format!("{}{}.{}", if is_sup { "s" } else { "m" }, sid_index(s), off),
+        }
+    };
+    let sweep: Vec<String> = (0..l + 3).map(|i| show(base.wrapping_add(i as u64).wrapping_sub(1))).collect();
+    // ids taken from readers positioned inside each section (start, middle, one past the end)
+    let readers: Vec<(usize, &R)> = vec![
+        (0, d.debug_abbrev.reader()),
+        (1, d.debug_addr.reader()),
+        (2, d.debug_aranges.reader()),
+        (3, d.debug_info.reader()),
+        (4, d.debug_line.reader()),
+        (5, d.debug_line_str.reader()),
+        (6, d.debug_macinfo.reader()),
+        (7, d.debug_macro.reader()),
+        (8, d.debug_names.reader()),
+        (9, d.debug_str.reader()),
+        (10, d.debug_str_offsets.reader()),
+        (11, d.debug_types.reader()),
+        (14, d.ranges.debug_ranges().reader()),
+        (15, d.ranges.debug_rnglists().reader()),
+    ];
+    let mut probes = Vec::new();
+    for (i, r) in readers {
+        let n = main[i].1;
+        for o in [0, n / 2, n] {
+            let mut c = r.clone();
+            if c.skip(o).is_err() {
+                return format!("id-mismatch skip {} {}", i, o);
+            }
+            let id = c.offset_id();
+            if id.0 != base + (main[i].0 + o) as u64 {
+                return format!("id-mismatch section {} offset {}", i, o);
+            }
+            probes.push(format!("{}.{}={}", i, o, show(id.0)));
+        }
+    }
+    format!("ok {} | {}", sweep.join(","), probes.join(","))
+}
